@@ -45,6 +45,10 @@ def _mk(target_cls, target):
                     if k > 0:
                         raise PyExc(I.make_exc([None, SchemaError, SchemaErrors, OtherException][k]))
                     out = check_obj.derive()
+                    # what the back end hands back is a QUERY: under a schema-only depth its coercion is a strict cast that polars
+                    # evaluates - and may refuse - only when the query is collected (C06: also then no polars exception may escape)
+                    if p.choose([("evaluated", None), ("holds_a_pending_strict_cast", None)], "validated query") == 1:
+                        out.may_fail_when_collected = True
                     p.ghost["backend_result"] = out
                     return out
 
@@ -129,6 +133,21 @@ def _mk(target_cls, target):
                             if after != before:
                                 bad = True
                                 obs[f"{mk.__name__} {data} lazy={lazy}"] = {"context before": [str(x) for x in before], "after": [str(x) for x in after]}
+                # C06: a pl.DataFrame under an explicit schema-only depth: the strict cast is evaluated by the final collect()
+                for name, sch in (("DataFrameSchema", pp.DataFrameSchema({"a": pp.Column(int)}, coerce=True)), ("Column", pp.Column(int, name="a", coerce=True))):
+                    for lazy in (False, True):
+                        with config_context(validation_depth=ValidationDepth.SCHEMA_ONLY):
+                            try:
+                                sch.validate(pl.DataFrame({"a": ["1", "x"]}), lazy=lazy)
+                                got = "returned"
+                            except (pa.errors.SchemaError, pa.errors.SchemaErrors) as e:
+                                got = type(e).__name__
+                            except Exception as e:  # noqa: BLE001
+                                got = "leaked " + type(e).__name__
+                        want = "SchemaErrors" if lazy else "SchemaError"
+                        if got != want:
+                            bad = True
+                            obs[f"{name}(int, coerce=True).validate(pl.DataFrame a=['1','x'], lazy={lazy}) under SCHEMA_ONLY"] = f"{got}, expected {want}"
                 return bad, obs or "the caller's context configuration is unchanged after passing and failing validations"
 
             return thunk
